@@ -44,7 +44,8 @@ RULE = (
     'per step 1-3 grid queries (quant in {0, 1..16, dyadic fractions}, phase '
     'in (-quant, quant), refbeat None or dyadic, ints and floats both) plus '
     'one play(quant) probe. Non-trivial = at least one tempo change and one '
-    'meter change precede a query with phase != 0. Distinct by sha1.')
+    'meter change precede a query with phase != 0. Distinct by sha1.'
+    " Steps may use etempo and may move the pending play probe to another quant; rt stage: C05's tempo programs on the RT simulation.")
 ASSUMPTIONS = [
     'beats= is generated as the last operation of a history only: the '
     'library documents that a beats change made from a scheduled routine '
